@@ -15,6 +15,9 @@
                              (`c12_opts_after_others`)
     c12_opts_hist            along every interleaving of chaining calls, conversions under any options, and parses, every live
                              schema keeps its observation
+    c12_override_members_ext / c12_override_members_def_kept
+                             the member list of an enum / literal in the document is a cell the conversion allocated: rewriting
+                             it in place leaves the definition (shared by the family) as it was
     c12_opts_partial         the legacy code (no clone): the same held for every option set WITHOUT an Override …
     override_edits_registry_examples / c12_opts_full_false
                              … and is false with one: an Override that rewrites `ctx.JSONSchema.Examples[0]` rewrites the
@@ -431,5 +434,39 @@ theorem c12_opts_full_false : ¬ c12_opts_full false := by
   have := (hf fixed rfl ⟨⟨0, 0, 0, 0, 0⟩, none, none, some ovw⟩ gw σw sw).2 1 (by decide)
   revert this
   decide
+
+/-! ### the member list of an enum / literal (`Enum`, `Const.Value`): level 1 is the conversion's own -/
+
+theorem shallow_loc (σ : Store) (l : Loc) : (shallow σ l).2 = σ.next := rfl
+
+theorem shallow_next (σ : Store) (l : Loc) : (shallow σ l).1.next = σ.next + 1 := rfl
+
+/-- the list `convertLiteral` puts into the document (`values` after boxing and flattening) is a cell the conversion
+    allocated, whether the accessor aliases the definition or copies it -/
+theorem convLiteral_fresh (a : Acc) (σ : Store) (l : Loc) : σ.next ≤ (convLiteral a σ l).2 := by
+  have h1 : σ.next ≤ (access a σ l).1.next := (access_ext a σ l).1
+  unfold convLiteral
+  simp only [box, flatten]
+  split
+  · rw [shallow_loc, shallow_next]; exact Nat.le_succ_of_le h1
+  · rw [shallow_loc]; exact h1
+
+/-- **c12_override_members_ext**: an Override (or the caller) rewriting in place the member list the document shows writes
+    nothing that existed before the conversion — the definition's own slice (`ZodLiteral.Values()` hands it out by reference)
+    is out of its reach at level 1. -/
+theorem c12_override_members_ext (a : Acc) (σ : Store) (l : Loc) (f : List (Nat × UVal) → List (Nat × UVal)) :
+    ExtFrom σ.next σ (overrideWrites (convLiteral a σ l).1 (some (convLiteral a σ l).2) f) :=
+  ExtFrom.trans (convLiteral_ext a σ l)
+    (overrideWrites_ext σ.next _ _ f (fun x hx => by cases hx; exact convLiteral_fresh a σ l))
+
+/-- … hence the definition serialises as before (to any depth), for the family that shares it -/
+theorem c12_override_members_def_kept (a : Acc) (σ : Store) (hc : NodeClosed σ) (l : Loc) (hl : l < σ.next)
+    (f : List (Nat × UVal) → List (Nat × UVal)) (d : Nat) :
+    ser d (overrideWrites (convLiteral a σ l).1 (some (convLiteral a σ l).2) f).heap (.ref l) = ser d σ.heap (.ref l) :=
+  frame_ser (c12_override_members_ext a σ l f) hc (.ref l) hl d
+
+/-- The shape the theorem excludes (seeded/C12c: boxing fast path + in-place de-duplication): there the list in the document IS
+    the definition's, and rewriting it rewrites the definition. -/
+theorem inplace_members_not_fresh : ¬ (σRepeat.next ≤ (convLiteralInPlace σRepeat lRepeat).2.1) := by decide
 
 end Gozod.C12Opts
